@@ -106,6 +106,47 @@ theorem create_on_initialized_rolled_back
     exact absurd hb (create_on_initialized_errs env ty tgt fa enc s hinit b)
   · rfl
 
+/-- `failed_create_leaves_wrapper`: `Create` on an initialized account leaves the in-memory wrapper
+value exactly as decode produced it (the initial value is stored only by a successful
+`init_account`), leaves the target's owner and bytes alone, and therefore running the set's cleanup
+(`BorshAccount::serialize`) after the failed call writes the account's own bytes back: the cleanup
+is the identity on the world. -/
+theorem failed_create_leaves_wrapper
+    (hinit : (s.w tgt.key).owner ≠ systemId ∨ (s.w tgt.key).data ≠ [])
+    (decoded : Option (List Nat)) (hdec : decodeBorsh ty (s.w tgt.key) = .ok decoded) :
+    wrapperAfterInit env ty false tgt fa enc s decoded = decoded ∧
+    ((initValidate env ty false tgt fa enc s).2.w tgt.key).data = (s.w tgt.key).data ∧
+    ((initValidate env ty false tgt fa enc s).2.w tgt.key).owner = (s.w tgt.key).owner ∧
+    serializeBorsh env ty tgt.key (wrapperAfterInit env ty false tgt fa enc s decoded)
+      (initValidate env ty false tgt fa enc s).2.w = (initValidate env ty false tgt fa enc s).2.w := by
+  have hw : wrapperAfterInit env ty false tgt fa enc s decoded = decoded := by
+    unfold wrapperAfterInit
+    split
+    · rename_i a f _ _
+      split
+      · rename_i hok
+        have hgo : initAccount env ty false tgt.key f a enc s = initGo env ty tgt.key f a enc s := by
+          simp [initAccount]
+        rw [hgo] at hok
+        obtain ⟨-, -, ho, hd, -⟩ := initGo_ok hok
+        rcases hinit with h | h
+        · exact absurd ho h
+        · exact absurd hd h
+      · rfl
+    · rfl
+  obtain ⟨hko, hkd⟩ := initValidate_initialized_keeps env ty tgt fa enc s hinit
+  refine ⟨hw, hkd, hko, ?_⟩
+  rw [hw]
+  unfold decodeBorsh at hdec
+  split at hdec
+  · split at hdec
+    · injection hdec with e
+      rw [← e, ← hkd]
+      exact serialize_decoded_identity env ty tgt.key _
+    · cases hdec
+  · injection hdec with e
+    rw [← e]; rfl
+
 /-- `create_if_needed_untouched`: with `CreateIfNeeded`, an initialized account of this type (owned
 by the program, carrying the type's discriminant, which is not all zero) is reported as not newly
 initialized, and the world and the CPI log are exactly what they were. -/
